@@ -84,6 +84,12 @@ func genC10(cfg Config, emit Emit) error {
 		s.Alter = rcptAlter[i%len(rcptAlter)]
 		emit("rcpt", []string{mustJSON(&s)}, s.Alter+"/"+s.Reader, s.Alter != "none")
 	}
+	nc, nb := 300, 20
+	if cfg.Thorough() {
+		nc, nb = 6000, 300
+	}
+	genCbor(cfg, emit, nc)
+	genCborBlocks(cfg, emit, nb)
 	return nil
 }
 
@@ -344,6 +350,14 @@ func execRcpt(a []string) Result {
 				if e2 != nil {
 					return a, e2
 				}
+				// history: the process has re-bound a receipt before, to other types that happen to carry
+				// the same names (whatever that attempt yields is not observed)
+				func() {
+					defer func() { recover() }()
+					if other, e := ipldLoad([]byte("type TOk struct { label String }\ntype TErr struct { code Int\n label String }")); e == nil {
+						receipt.Rebind[typedOK, typedOK](any0, other.TypeByName("TOk"), other.TypeByName("TErr"))
+					}
+				}()
 				ts, e3 := ipldLoad([]byte("type TOk struct { n Int\n status String }\ntype TErr struct { n Int\n status String }"))
 				if e3 != nil {
 					return a, e3
